@@ -378,7 +378,8 @@ impl Transient {
             // operation log of the undisturbed run
             let ops = base_ops(&b);
             for (at, req) in ops {
-                if req < 1000 {
+                // (small writes too: an implementation may send a packet header in a write of its own)
+                if req < 2 {
                     continue;
                 }
                 for (kind, what) in [(crate::sim::FaultKind::Error(std::io::ErrorKind::Interrupted), "Interrupted once"), (crate::sim::FaultKind::ShortWrite(1), "accepts 1 byte"), (crate::sim::FaultKind::ShortWrite(req / 2), "accepts half")] {
